@@ -44,6 +44,7 @@ package cache
 //@   requires c != nil ==> cacheInv(c) && !held(c.mu)
 //@   ensures [lock-frame] c != nil ==> lockFrame(c)
 //@   ensures [timer-frame] c != nil ==> timerFrame(c)
+//@   ensures [timer-id] c != nil ==> c.timer == nil || c.timer == old(c.timer) || fresh(c.timer)
 //@   ensures [lock-released] c != nil ==> !held(c.mu)
 //@   ensures [inv] c != nil ==> cacheInv(c)
 //@   ensures [cleanup-before-removal] c != nil ==> removedCleaned(c)
@@ -78,6 +79,7 @@ package cache
 //@   requires c != nil ==> cacheInv(c) && !held(c.mu)
 //@   ensures [lock-frame] c != nil ==> lockFrame(c)
 //@   ensures [timer-frame] c != nil ==> timerFrame(c)
+//@   ensures [timer-id] c != nil ==> c.timer == nil || c.timer == old(c.timer) || fresh(c.timer)
 //@   ensures [lock-released] c != nil ==> !held(c.mu)
 //@   ensures [inv] c != nil ==> cacheInv(c)
 //@   ensures [found] c != nil && old(key in c.entries) ==> err == nil && val == old(c.entries[key].value) && c.entries[key].used >= old(clock())
@@ -90,6 +92,7 @@ package cache
 //@   requires c != nil ==> cacheInv(c) && !held(c.mu)
 //@   ensures [lock-frame] c != nil ==> lockFrame(c)
 //@   ensures [timer-frame] c != nil ==> timerFrame(c)
+//@   ensures [timer-id] c != nil ==> c.timer == nil || c.timer == old(c.timer) || fresh(c.timer)
 //@   ensures [lock-released] c != nil ==> !held(c.mu)
 //@   ensures [exact] c != nil ==> (empty <==> len(c.entries) == 0)
 
@@ -99,6 +102,7 @@ package cache
 //@   requires c != nil ==> cacheInv(c) && !held(c.mu)
 //@   ensures [lock-frame] c != nil ==> lockFrame(c)
 //@   ensures [timer-frame] c != nil ==> timerFrame(c)
+//@   ensures [timer-id] c != nil ==> c.timer == nil || c.timer == old(c.timer) || fresh(c.timer)
 //@   ensures [lock-released] c != nil ==> !held(c.mu)
 //@   ensures [inv] c != nil ==> cacheInv(c)
 //@   ensures [stored] c != nil ==> (key in c.entries) && c.entries[key].value == val && c.entries[key].used >= old(clock())
